@@ -15,6 +15,12 @@ WORDS = cm.words('ab', 5)
 
 
 def edits(m):
+    if m[0] in ('seq', 'cho', 'all') and m[1]:
+        # another compositor over the same particles, or over one of them (a one-branch choice restricting a sequence, a sequence restricting an all group, ...)
+        for k in ('seq', 'cho'):
+            if k != m[0]:
+                yield (k, m[1], m[2])
+                for c in m[1][:2]: yield (k, [c], m[2])
     for o in cm.OCC:
         if o != tuple(m[2]): yield (m[0], m[1], o)
     if m[0] not in ('e', 'w'):
@@ -42,7 +48,7 @@ def evaluate(args):
     try: _cls(ver)(f'<xs:schema {cm.XS}><xs:complexType name="B">{cm.xsd(base)}</xs:complexType></xs:schema>')
     except xmlschema.XMLSchemaException: return out
     LB = {w for w in WORDS if cm.in_language(base, w)}
-    for der in itertools.islice(edits(base), 40):
+    for der in itertools.islice(edits(base), 46):
         out['pairs'] += 1
         try: s = _cls(ver)(schema_text(base, der))
         except xmlschema.XMLSchemaException: continue
